@@ -58,6 +58,10 @@ def _grid(r, c, tier, rnd, eng, kind='cost'):
                 out.append(dict(base, window=w, pen=pen, psi=psi, keep=(w is None or w % 2 == 0), neg=True))
                 if psi is not None and spec.norm_psi(psi)[1] + spec.norm_psi(psi)[3] > 0:
                     out.append(dict(base, window=w, pen=pen, psi=psi, keep=False, neg=False))
+    if not fork_ok and r * c <= 12 and eng == 'c':
+        # narrow band on longer series: the shifted regions (C, D) of the compact layout exist here
+        out.append(dict(base, window=1, md=True, keep=True))
+        out.append(dict(base, window=1, step=True))
     if fork_ok:
         for w in (None, 1, 2):
             for pen in (False, True):
